@@ -390,7 +390,7 @@ def rule_d6(ck, prog, S):
     # character comparisons
     tests = {}
     for n in f.nodes.values():
-        if n.k == "BinaryOperator" and n.get("op") == "==":
+        if n.k == "BinaryOperator" and n.get("op") in ("==", "!="):
             l, r = n.child(0).strip_all_casts(), n.child(1)
             c = C.const_of(r)
             p = l.get("path") or ""
@@ -474,7 +474,7 @@ def rule_d6(ck, prog, S):
     idxs = [n for n, t in C.stores(f) if n.get("op") == "=" and n.child(1).strip_all_casts().get("path") == prevp + "->len"]
     dec = [n for n, t in C.stores(f) if n.k == "UnaryOperator" and n.get("op") == "--"]
     # the scan loop is the one that holds the ':' test
-    colon_blocks = {f.where[n.id][0].id for n in f.nodes.values() if n.k == "BinaryOperator" and n.get("op") == "==" and
+    colon_blocks = {f.where[n.id][0].id for n in f.nodes.values() if n.k == "BinaryOperator" and n.get("op") in ("==", "!=") and
                     C.const_of(n.child(1)) == ord(":") and n.id in f.where}
     scan_loops = [(h, bd) for h, bd in loops if colon_blocks & set(bd)]
     dec_in = [n for n in dec if scan_loops and f.where[n.id][0].id in scan_loops[0][1]]
